@@ -11,6 +11,11 @@ use serde::{Deserialize, Serialize};
 use serde_json::Value;
 use std::str::FromStr;
 
+/// Values that run to the end of their line: blanks around them are layout, anything else is not.
+fn trim_blanks(s: &str) -> String {
+    s.trim_matches(|c| c == ' ' || c == '\t').to_string()
+}
+
 pub struct C10;
 
 #[derive(Serialize, Deserialize, Debug, Clone)]
@@ -135,7 +140,7 @@ impl Prop for C10 {
         vec![
             "token numbering only has to be dense and bijective with the names".into(),
             "prod_span may end anywhere between the end of the production's last symbol and the following action brace or delimiter; action_span is only checked for lying inside the text and between the braces".into(),
-            "%parse-param / %actiontype text compared after trimming".into(),
+            "%parse-param / %parse-generics / %actiontype text compared after trimming spaces and tabs (nothing else: a line terminator is not part of the value)".into(),
         ]
     }
     fn required_classes(&self, _tier: Tier) -> Vec<&'static str> {
@@ -468,7 +473,7 @@ impl Prop for C10 {
                 YKind::UserAction => Some("Vec<é>".to_string()),
                 _ => None,
             };
-            let got_ty = grm.actiontype(rmap[r]).as_ref().map(|s| s.trim().to_string());
+            let got_ty = grm.actiontype(rmap[r]).as_ref().map(|s| trim_blanks(s));
             if got_ty != exp_ty {
                 fail(&mut o, "actiontype", format!("actiontype({}) = {:?}, expected {:?}", ag.rules[r].name, got_ty, exp_ty));
                 return o;
@@ -550,11 +555,11 @@ impl Prop for C10 {
             return o;
         }
         let exp_pg = if text.contains("%parse-generics") { Some("'a, T: Copy".to_string()) } else { None };
-        if grm.parse_generics().as_ref().map(|s| s.trim().to_string()) != exp_pg {
+        if grm.parse_generics().as_ref().map(|s| trim_blanks(s)) != exp_pg {
             fail(&mut o, "parse-generics", format!("parse_generics() {:?}, expected {:?}", grm.parse_generics(), exp_pg));
             return o;
         }
-        let got_pp = grm.parse_param().as_ref().map(|(a, b)| (a.trim().to_string(), b.trim().to_string()));
+        let got_pp = grm.parse_param().as_ref().map(|(a, b)| (trim_blanks(a), trim_blanks(b)));
         let exp_pp = if pp_in_text { Some(("p".to_string(), "&'a mut u8".to_string())) } else { None };
         if got_pp != exp_pp {
             fail(&mut o, "parse-param", format!("parse_param {:?}, expected {:?}", got_pp, exp_pp));
